@@ -1,7 +1,8 @@
 ---------------------------- MODULE Ind_ValveProof ----------------------------
 (* X05 - TLAPS proof, over the ORIGINAL modules Valve / MC_Valve, of TypeOK, CoilFollows,
    NeverStuck and the step property ErrorReaction for ANY set of moving times (natural numbers),
-   ANY step bound MaxDt and without the clock bound of MC_Valve.                               *)
+   ANY step bound MaxDt, reconfiguration (SetMovingTime, SetSafeState) at any time and without the
+   clock bound of MC_Valve.                               *)
 EXTENDS MC_Valve, TLAPS
 
 ASSUME VAssump == MovingTimes \subseteq Nat /\ MaxDt \in Nat
@@ -12,8 +13,8 @@ Step == (error' /\ ~error) => (coil' = safe /\ target' = safe)
 THEOREM VInitInd == MCInit => IndInv
   BY VAssump DEF MCInit, VInit, IndInv, TypeOK, CoilFollows, NeverStuck, InTime
 
-THEOREM VStepInd == IndInv /\ [VNext(MaxDt)]_vvars => IndInv' /\ Step
-<1> SUFFICES ASSUME IndInv, [VNext(MaxDt)]_vvars PROVE IndInv' /\ Step
+THEOREM VStepInd == IndInv /\ [MCNext]_vvars => IndInv' /\ Step
+<1> SUFFICES ASSUME IndInv, [MCNext]_vvars PROVE IndInv' /\ Step
   OBVIOUS
 <1> USE VAssump
 <1>0. CASE UNCHANGED vvars
@@ -26,7 +27,11 @@ THEOREM VStepInd == IndInv /\ [VNext(MaxDt)]_vvars => IndInv' /\ Step
   BY <1>3 DEF Advance, IndInv, TypeOK, CoilFollows, NeverStuck, InTime, Step
 <1>4. ASSUME NEW conf \in BOOLEAN, Update(conf) PROVE IndInv' /\ Step
   BY <1>4 DEF Update, Confirmations, Confirms, IndInv, TypeOK, CoilFollows, NeverStuck, InTime, Step
-<1> QED BY <1>0, <1>1, <1>2, <1>3, <1>4 DEF VNext
+<1>5. ASSUME NEW m \in MovingTimes, SetMovingTime(m) PROVE IndInv' /\ Step
+  BY <1>5 DEF SetMovingTime, IndInv, TypeOK, CoilFollows, NeverStuck, InTime, Step
+<1>6. ASSUME NEW s \in BOOLEAN, SetSafeState(s) PROVE IndInv' /\ Step
+  BY <1>6 DEF SetSafeState, IndInv, TypeOK, CoilFollows, NeverStuck, InTime, Step
+<1> QED BY <1>0, <1>1, <1>2, <1>3, <1>4, <1>5, <1>6 DEF MCNext, VNext
 
 THEOREM VSafe == MCSpec => [](TypeOK /\ CoilFollows /\ NeverStuck) /\ ErrorReaction
 <1>1. IndInv => TypeOK /\ CoilFollows /\ NeverStuck
